@@ -207,7 +207,7 @@ func init() {
 			if tier == "thorough" {
 				return 1500
 			}
-			return 300
+			return 400
 		},
 		RunUnit: func(c *explore.Ctx) {
 			runWritersDFS(c, "C06", func(a DFSArg) []WOp { return KVAlphabet(a.Alpha) }, func(w *Writers, a DFSArg) {
